@@ -60,7 +60,7 @@ impl Reader {
     ensures r == self.index
 //@end
 //@extract src/reader.rs | impl<'t, D: Distance> Reader<'t, D> | contains_item
-//@subst
+//@subst count=opt
 <<<
 .map(|opt| opt.is_some())
 ===
@@ -70,7 +70,7 @@ impl Reader {
     ensures r matches Ok(b) ==> b == rtxn.view().contains_key(ikey(self.index, item))
 //@end
 //@extract src/reader.rs | impl<'t, D: Distance> Reader<'t, D> | item_vector
-//@subst
+//@subst count=opt
 <<<
 .map(|leaf| {
 ===
@@ -93,7 +93,7 @@ impl Reader {
         r matches Err(e) ==> e is Heed,
 //@end
 //@extract src/reader.rs | impl<'t, D: Distance> Reader<'t, D> | is_empty
-//@subst
+//@subst count=opt
 <<<
 .map(|mut iter| iter.next().is_none())
 ===
